@@ -129,6 +129,21 @@ func recordHistory(c *Ctx, lines []J, o *HistoryOutcome, be string) {
 }
 
 func reportHistoryProblem(c *Ctx, dr *Driver, im *Impl, lines []J, o *HistoryOutcome, be string, opts HistOpts, stream string) {
+	if o.Kind != "spec" {
+		// a correspondence broke (model and implementation differ while the oracle held so far): search the
+		// whole history with the property's own oracles for a concrete failing input before giving up
+		so := opts
+		so.SpecOnly = true
+		if o3 := runHistory(dr, im, lines, so); o3.Index >= 0 && o3.Kind == "spec" {
+			c.Count("search-after-break:found")
+			reportHistoryProblem(c, dr, im, lines, &o3, be, so, stream)
+			return
+		} else if o3.Index < 0 && !compareTwins(c, lines, &o3, be) {
+			c.Count("search-after-break:found-by-twins")
+			return
+		}
+		c.Count("search-after-break:none")
+	}
 	kind := o.Kind
 	small := shrinkHistory(dr, im, lines[:o.Index+1], opts, kind)
 	o2 := runHistory(dr, im, small, opts)
